@@ -306,7 +306,7 @@ class Dispatcher:
         else:
             self._active_connections.discard(conn)
             # XXX: also check all entries in self._subscriptions?
-        return (DISABLEEVENTSREPLY, None, None)
+        return (DISABLEEVENTSREPLY, specifier, None) if specifier else (DISABLEEVENTSREPLY, None, None)
 
     def send_log_msg(self, conn, modname, level, msg):
         """send log message """
